@@ -1,5 +1,6 @@
 import LeptosModel.Model.Wire
 import LeptosModel.Model.Stream
+import LeptosModel.Model.Html
 /-! Line-protocol driver for C07 (op grammar: harness/hx-c07/src/bin/c07.rs). -/
 open Leptos Leptos.Wire Leptos.Stream
 
@@ -119,10 +120,29 @@ def parseViews (mk : Nat) (nonce : Option Str) : Nat â†’ Bool â†’ List String â†
     let opt (vs : List View) : List View := wrapIf (mk == 2 && under) vs
     let fbv (fb : Str) : Str := if mk â‰¥ 1 then mTok ++ fb ++ mTok else fb
     if k == 'r' then (strOfHex arg).bind fun s => cont (View.raw s) ts
-    else if k == 't' then (strOfHex arg).bind fun s => cont (node (View.raw s)) ts
+    -- a text node: `html_escape::encode_text`, the empty string as a space (Model/Html `textHtml`)
+    else if k == 't' then (strOfHex arg).bind fun s => cont (node (View.raw (Html.textHtml true .firstChild s))) ts
     else if k == 'e' then
-      (stripOpen arg).bind fun tag =>
-      (body ts).bind fun (vs, r) => cont (node (View.seq ([View.raw (tagOpen tag)] ++ vs ++ [View.raw (tagClose tag)]))) r
+      -- e<tag>[@<hex>][ â€¦ ]: `title` attribute, value through `escape_attr`
+      (stripOpen arg).bind fun tagA =>
+      let (tag, title) := match tagA.splitOn "@" with
+        | [t, h] => (t, strOfHex h)
+        | _ => (tagA, none)
+      let open_ : Str := match title with
+        | some v => '<' :: tag.toList ++ " title=\"".toList ++ Html.escapeAttr v ++ "\">".toList
+        | none => tagOpen tag
+      if tag == "textarea" then
+        -- RCDATA: the children are text tokens, printed unescaped and then passed through `elemBody` (the repaired
+        -- printer: `encode_text`, a leading line feed doubled), on the synchronous and on the streaming path
+        match ts with
+        | t1 :: "]" :: r =>
+          if t1.front == 't' then
+            (strOfHex (t1.drop 1).toString).bind fun s =>
+              cont (node (View.raw (open_ ++ Html.elemBody Html.tTextarea s ++ tagClose tag))) r
+          else none
+        | _ => none
+      else
+      (body ts).bind fun (vs, r) => cont (node (View.seq ([View.raw open_] ++ vs ++ [View.raw (tagClose tag)]))) r
     else if t == "I[" then
       (body ts).bind fun (vs, r) =>
         cont (node (View.seq ([View.raw "<leptos-island data-component=\"isl\">".toList] ++ vs ++ [View.raw "</leptos-island>".toList]))) r
